@@ -136,6 +136,27 @@ func rR1(c *Ctx, plugins ...string) {
 					Msg: fmt.Sprintf("plugin %s: %s (In/Out calls do not balance on an accepted path)", p, rs.Run.Msg), Detail: "abstract path: " + rs.Run.describe()})
 				continue
 			}
+			// a blank field cannot be selected: `x._` is a compile error ("cannot refer to blank field")
+			blank := false
+			ast.Inspect(rs.File, func(n ast.Node) bool {
+				if sel, ok := n.(*ast.SelectorExpr); ok && sel.Sel.Name == "_" && !blank {
+					blank = true
+					line := rs.Fset.Position(sel.Pos()).Line
+					fn := "?"
+					where := []string{}
+					if line > 0 && line-1 < len(rs.Run.LinePos) {
+						fn = c.Repo.funcAt(rs.Run.LinePos[line-1])
+						where = append(where, rs.Run.where(c.Repo, line))
+					}
+					c.Rep.fail(Finding{Rule: "R1", Key: fmt.Sprintf("R1|%s|%s|blank-field", p, fn), Where: where, Plugin: p, Script: rs.Run.Script,
+						Msg:    fmt.Sprintf("plugin %s emits %s for a struct whose field is blank (`_ T` padding or the `_ [0]func()` idiom): a blank field cannot be referred to, so goderive exits 0 and derived.gen.go does not compile", p, exprStr(sel)),
+						Detail: "abstract path: " + rs.Run.describe() + "\nresidual:\n" + rs.Run.excerpt(40)})
+				}
+				return true
+			})
+			if blank {
+				continue
+			}
 			c.Rep.pass("R1")
 		}
 	}
